@@ -50,6 +50,20 @@ CHECKS = {
                 text="Model-based sequential histories with full re-read after every step; enumeration of every pwrite64/fdatasync/ftruncate crash point of generated save/delete scripts "
                      "(worker killed by strace injection, fresh process reads back); concurrent goroutine + process clients incl. killed ones checked with porcupine.",
                 note="Trusted base: harness, strace (injection at syscall entry), porcupine v1.3.0, tmpfs semantics of /dev/shm; process kill only (no power loss)."),
+    "C04": dict(level="exploration", ref="3 (C04)", technique="runtime monitor: bounded-progress trace checker over closed-loop runs in virtual time, reference = observed steady map of the direct algorithm",
+                text="Fresh controllers are started from every sampled device PWM at constant curve values; the request trace is checked for settling within the declared cycle bound, "
+                     "step bound, monotone approach and equality with the direct algorithm's steady value; default PID traces after adversarial multi-hour histories (virtual clock) must "
+                     "stay within one step of it during cycles [1200, 1500]."),
+    "C05": dict(level="exploration", ref="3 (C05)", technique="runtime monitor: per-cycle assertion on device state and statistics counter under injected external interference",
+                text="An intruder rewrites the virtual device's mode/PWM between cycles and in the middle of cycles; after the next complete cycle the device must be in manual mode at "
+                     "the mapped target, and the third-party counter must move by exactly the number of effective PWM changes."),
+    "C08": dict(level="fault_enumeration", ref="4 (C08)", technique="runtime monitor: per-poll invariant (hull, geometric contraction, bit-identical average after faulty poll) with exhaustive fault placement in short sequences",
+                text="The real monitor step on real sensor objects with every fault kind placed at every position of short sequences and randomly in long ones; the oracle is evaluated after every poll."),
+    "C10": dict(level="exploration", ref="3 (C10)", technique="runtime monitor: bounded-progress checker in logical steps (RPM polls) on stall scenarios",
+                text="Stall scenarios on real hwmon/file/cmd fans: each raise must come within B(n)=25n+25 polls while the plant reports 0 RPM, the error must come exactly at the maximum."),
+    "C11": dict(level="exploration", ref="4 (C11)", technique="runtime monitor: generated configuration texts through the real loader/validator, reference acceptance predicate plus crash monitor on instantiation (child process per batch)",
+                text="Accepted configurations are checked against a reference structural predicate and then instantiated, evaluated and cycled by the daemon's own initialisation code in a "
+                     "child process whose death is attributed to the logged case; documented-form configurations must be accepted."),
 }
 
 
